@@ -24,3 +24,33 @@ func TryVal(f func()) (val interface{}) {
 	f()
 	return nil
 }
+
+// N builds a variable name from a base and indices.
+func N(base string, idx ...int) string {
+	for _, i := range idx {
+		base += "_" + itoa(i)
+	}
+	return base
+}
+
+func itoa(i int) string {
+	if i == 0 {
+		return "0"
+	}
+	neg := i < 0
+	if neg {
+		i = -i
+	}
+	var b [24]byte
+	p := len(b)
+	for i > 0 {
+		p--
+		b[p] = byte('0' + i%10)
+		i /= 10
+	}
+	if neg {
+		p--
+		b[p] = '-'
+	}
+	return string(b[p:])
+}
